@@ -327,6 +327,17 @@ def history_materialise(ctx, m, warm, name="plt00100", rate=6, tag="hist"):
         twin.time = m.time
     else:
         twin = m.copy_meta()
+    if len(m.fields) >= 2 and src.flag(f"{tag}.other_fields", 3):
+        # an earlier member of a time series that lacks a field or stores the fields in another order:
+        # what a tool remembers about field names/positions then belongs to a different plotfile
+        k = sub.draw("t.fields", 0, 2)
+        if k == 0:
+            del twin.fields[sub.draw("t.drop", 0, len(twin.fields) - 1)]
+        elif k == 1:
+            twin.fields = twin.fields[1:] + twin.fields[:1]
+        else:
+            twin.fields = twin.fields[::-1][:max(1, len(twin.fields) - 1)]
+        ctx.probe("history.other_fields")
     world.gen_layout(sub, twin, tag="t")
     world.fill_random(twin, sub.draw("t.data", 0, 999999))
     ctx.probe("history." + mode)
